@@ -1,9 +1,86 @@
-"""C08 on the symbolic repository (see gitprops.py)."""
-from . import gitprops
+"""C08 - Bert-E never rewrites or deletes what it does not own.
+
+(a) fast-forward / foreign-ref monitors on the symbolic queue-merge and
+    direct-merge runs, with a symbolic third-party action before each push
+    (gitprops.py);
+(b) the delete-branch admin job (the one allowed deletion): the archive tag is
+    published before the deletion and points at the deleted tip, nothing else is
+    touched (the delete configurations of c20.py, real delete_branch on symgit);
+(c) the Branch.remove guard.
+"""
+import z3
+
+from symx.core import explore
+from symx.report import Cex
+from . import gitprops, common
+
+
+def delete_part(rep):
+    from . import c20
+    cfgs = c20.delete_configs(rep.tier)
+    outs = common.pmap(c20._run, cfgs)
+    seen = set()
+    for c, results, st in outs:
+        rep.add_stats(st, 'delete-branch %s%s' % (c['victim'], ' +refusals' if c.get('reject') else ''))
+        for _, r in results:
+            for b in r['bad']:
+                lab = b['label']
+                if not ('archive tag' in lab or 'changed other refs' in lab or
+                        'deleted the branch all the same' in lab):
+                    continue            # refusal / transactionality clauses belong to C20
+                if lab in seen:
+                    continue
+                seen.add(lab)
+                data = dict(cfg=c, world=b['world'], label=lab, oplog=b['oplog'], part='delete')
+                try:
+                    ok = c20.replay(data)
+                except Exception as e:
+                    ok = False
+                    rep.error('replay failed: %r' % (e,))
+                rep.cexs.append(Cex('C08', 'delete-branch: ' + lab, data, ok,
+                                    '%s on delete %s' % (lab, c['victim'])))
+    rep.functions_encoded.append('jobs.delete_branch.delete_branch/do_delete (archive tag before deletion)')
+
+
+def remove_guard(rep):
+    """Branch.remove refuses any name outside w/, q/, tmp/ unless forced - real
+    method on a recording repository, names drawn by the solver from each class."""
+    import rx2z3 as R
+    from bert_e.lib import git as G
+    from .c18 import factory_order
+    q = R.Q()
+    names = []
+    for c in factory_order():
+        names += q.members(R.lang(c.pattern), 3, maxlen=24)
+    names += ['wx/1', 'q', 'tmp', 'w', 'development/w/x', ' w/x', 'W/x']
+    for n in names:
+        log = []
+        repo = type('R', (), {'cmd': lambda self, *a, **k: log.append(a) or '',
+                              'push': lambda self, x: log.append(('push', x))})()
+        b = G.Branch(repo, n)
+        own = n.startswith(('w/', 'q/', 'tmp/'))
+        try:
+            b.remove(do_push=True)
+            refused = False
+        except G.ForbiddenOperation:
+            refused = True
+        rep.transitions += 1
+        if refused == own or (refused and log):
+            rep.cexs.append(Cex('C08', 'Branch.remove guard wrong', dict(part='guard', name=n), True,
+                                'name %r: refused=%s commands=%s' % (n, refused, log)))
+            break
+        rep.validated += 1
+    rep.queries += q.n
 
 
 def check(rep):
     gitprops.run(rep, 'C08')
+    delete_part(rep)
+    remove_guard(rep)
 
 
-replay = gitprops.replay
+def replay(data):
+    if data.get('part') == 'delete':
+        from . import c20
+        return c20.replay(data)
+    return gitprops.replay(data)
